@@ -497,6 +497,16 @@ inline int pbt_main(int argc, char **argv, const Spec &sp) {
             seen_fail = true;
             last_fail = c;
             last_msg = v.msg;
+            // keep the best failing case found so far on disk: if this worker is stopped while still shrinking,
+            // the (partly shrunk) failure is not lost
+            if (!fail_path.empty()) {
+                std::string tmp = fail_path + ".tmp";
+                {
+                    std::ofstream o(tmp);
+                    o << header << "# " << last_msg.substr(0, last_msg.find('\n')) << "\n" << serialize_body(last_fail);
+                }
+                rename(tmp.c_str(), fail_path.c_str());
+            }
         }
         RC_ASSERT(v.ok);
     });
